@@ -4,6 +4,8 @@ import (
 	"fmt"
 	"math"
 	"sort"
+	"strconv"
+	"strings"
 	"testing"
 
 	"github.com/llir/llvm/ir/constant"
@@ -165,7 +167,11 @@ func TestNewFloatRounding(t *testing.T) {
 			d = -d
 		}
 		if math.IsNaN(d) {
-			hx.Discard("nan(NewFloat_takes_numbers)")
+			// NewFloat keeps "is a NaN" and the sign (the payload is the open finding KF-C10-nan-payload): the
+			// printed literal of every kind must be a NaN literal with the sign of d
+			hx.Eval(1)
+			checkNewFloatNaN(rt, test, d)
+			hx.Hist("nan/sign=" + fmt.Sprint(math.Signbit(d)))
 			return
 		}
 		hx.Eval(1)
@@ -175,4 +181,56 @@ func TestNewFloatRounding(t *testing.T) {
 		}
 		hx.Hist("kind/" + kk.k.Name)
 	})
+}
+
+// checkNewFloatNaN: constant.NewFloat(kind, NaN) for all six kinds prints a NaN literal of that kind that
+// carries the sign bit of the argument, is accepted by NewFloatFromString and is a normal form.
+func checkNewFloatNaN(rt hx.TB, test string, d float64) {
+	neg := math.Signbit(d)
+	for _, ft := range []*types.FloatType{types.Half, types.Float, types.Double, types.X86_FP80, types.FP128, types.PPC_FP128} {
+		c := fmt.Sprintf("constant.NewFloat(types.%s, math.Float64frombits(0x%016X)) // NaN, sign bit %v\n", ft, math.Float64bits(d), neg)
+		var lit string
+		if p := lx.Guard(func() { lit = constant.NewFloat(ft, d).Ident() }); p != nil {
+			hx.Fail(rt, test, "txt", c, "NewFloat/Ident panics: %s", p)
+		}
+		// the sign and NaN-ness of the literal, read off the hexadecimal form of each kind
+		var isNaN, litNeg bool
+		hexv := func(s string) uint64 { v, _ := strconv.ParseUint(s, 16, 64); return v }
+		switch {
+		case strings.HasPrefix(lit, "0xH") && len(lit) == 7:
+			v := hexv(lit[3:])
+			isNaN, litNeg = v&0x7C00 == 0x7C00 && v&0x3FF != 0, v>>15 == 1
+		case strings.HasPrefix(lit, "0xK") && len(lit) == 23:
+			se, m := hexv(lit[3:7]), hexv(lit[7:])
+			isNaN, litNeg = se&0x7FFF == 0x7FFF && m<<1 != 0, se>>15 == 1
+		case strings.HasPrefix(lit, "0xL") && len(lit) == 35:
+			lo, hi := hexv(lit[3:19]), hexv(lit[19:])
+			isNaN, litNeg = hi&0x7FFF000000000000 == 0x7FFF000000000000 && (hi&0xFFFFFFFFFFFF != 0 || lo != 0), hi>>63 == 1
+		case strings.HasPrefix(lit, "0xM") && len(lit) == 35:
+			hi := hexv(lit[3:19])
+			isNaN, litNeg = math.IsNaN(math.Float64frombits(hi)), hi>>63 == 1
+		case strings.HasPrefix(lit, "0x") && len(lit) == 18:
+			v := hexv(lit[2:])
+			isNaN, litNeg = math.IsNaN(math.Float64frombits(v)), v>>63 == 1
+		}
+		if !isNaN {
+			hx.Fail(rt, test, "txt", c, "NewFloat(%s, NaN) prints %q, which is not a NaN literal of that kind", ft, lit)
+		}
+		if litNeg != neg {
+			hx.Fail(rt, test, "txt", c, "NewFloat(%s, NaN with sign bit %v) prints %q, a NaN with sign bit %v", ft, neg, lit, litNeg)
+		}
+		var again string
+		if p := lx.Guard(func() {
+			c2, err := constant.NewFloatFromString(ft, lit)
+			if err != nil {
+				panic(err)
+			}
+			again = c2.Ident()
+		}); p != nil {
+			hx.Fail(rt, test, "txt", c, "the printed literal %q is not accepted by NewFloatFromString: %s", lit, p)
+		}
+		if again != lit {
+			hx.Fail(rt, test, "txt", c, "the printed literal %q is not a normal form: parsing and printing it again gives %q", lit, again)
+		}
+	}
 }
